@@ -93,7 +93,7 @@ Definition t_methods : table := [
   ("T.Name", [
     IAcc F_T_tb false;
     ICall "tb.Name"]);
-  (* engine.go:689 *)
+  (* engine.go:719 *)
   ("T.Log", [
     IAcc F_T_rawLog false;
     IAcc F_T_rawLog false;
@@ -103,7 +103,7 @@ Definition t_methods : table := [
     ICall "t.tb.Helper";
     IAcc F_T_tb false;
     ICall "t.tb.Log"]);
-  (* engine.go:680 *)
+  (* engine.go:710 *)
   ("T.Logf", [
     IAcc F_T_rawLog false;
     IAcc F_T_rawLog false;
@@ -113,7 +113,7 @@ Definition t_methods : table := [
     ICall "t.tb.Helper";
     IAcc F_T_tb false;
     ICall "t.tb.Logf"]);
-  (* engine.go:737 *)
+  (* engine.go:767 *)
   ("T.Error", [
     IAcc F_T_tbLog false;
     IAcc F_T_tb false;
@@ -133,7 +133,7 @@ Definition t_methods : table := [
       IAcc F_T_parent false;
       ICall "t.parent.fail";
       IAcc F_T_failed false]]);
-  (* engine.go:728 *)
+  (* engine.go:758 *)
   ("T.Errorf", [
     IAcc F_T_tbLog false;
     IAcc F_T_tb false;
@@ -153,7 +153,7 @@ Definition t_methods : table := [
       IAcc F_T_parent false;
       ICall "t.parent.fail";
       IAcc F_T_failed false]]);
-  (* engine.go:767 *)
+  (* engine.go:797 *)
   ("T.Fail", [
     ILocked MU_T_mu MW [
       IAcc F_T_failed true;
@@ -161,11 +161,11 @@ Definition t_methods : table := [
       IAcc F_T_parent false;
       ICall "t.parent.fail";
       IAcc F_T_failed false]]);
-  (* engine.go:771 *)
+  (* engine.go:801 *)
   ("T.Failed", [
     ILocked MU_T_mu MR [
       IAcc F_T_failed false]]);
-  (* engine.go:569 *)
+  (* engine.go:574 *)
   ("T.Context", [
     ILocked MU_T_mu MR [
       IAcc F_T_ctx false];
@@ -182,12 +182,12 @@ Definition t_methods : table := [
       ICall "context.WithCancel";
       IAcc F_T_ctx true;
       IAcc F_T_cancelCtx true]]);
-  (* engine.go:628 *)
+  (* engine.go:633 *)
   ("T.Cleanup", [
     ILocked MU_T_mu MW [
       IAcc F_T_cleanups false;
       IAcc F_T_cleanups true]]);
-  (* engine.go:708 *)
+  (* engine.go:738 *)
   ("T.Skip", [
     IAcc F_T_tbLog false;
     IAcc F_T_tb false;
@@ -201,7 +201,7 @@ Definition t_methods : table := [
     IAcc F_T_tb false;
     ICall "t.tb.Log";
     ICall "fmt.Sprint"]);
-  (* engine.go:699 *)
+  (* engine.go:729 *)
   ("T.Skipf", [
     IAcc F_T_tbLog false;
     IAcc F_T_tb false;
@@ -215,9 +215,9 @@ Definition t_methods : table := [
     IAcc F_T_tb false;
     ICall "t.tb.Logf";
     ICall "fmt.Sprintf"]);
-  (* engine.go:723 *)
+  (* engine.go:753 *)
   ("T.SkipNow", []);
-  (* engine.go:755 *)
+  (* engine.go:785 *)
   ("T.Fatal", [
     IAcc F_T_tbLog false;
     IAcc F_T_tb false;
@@ -237,7 +237,7 @@ Definition t_methods : table := [
       IAcc F_T_parent false;
       ICall "t.parent.fail";
       IAcc F_T_failed false]]);
-  (* engine.go:746 *)
+  (* engine.go:776 *)
   ("T.Fatalf", [
     IAcc F_T_tbLog false;
     IAcc F_T_tb false;
@@ -257,7 +257,7 @@ Definition t_methods : table := [
       IAcc F_T_parent false;
       ICall "t.parent.fail";
       IAcc F_T_failed false]]);
-  (* engine.go:763 *)
+  (* engine.go:793 *)
   ("T.FailNow", [
     ILocked MU_T_mu MW [
       IAcc F_T_failed true;
@@ -265,7 +265,7 @@ Definition t_methods : table := [
       IAcc F_T_parent false;
       ICall "t.parent.fail";
       IAcc F_T_failed false]]);
-  (* engine.go:782 *)
+  (* engine.go:812 *)
   ("T.fail", [
     ILocked MU_T_mu MW [
       IAcc F_T_failed true;
@@ -273,17 +273,17 @@ Definition t_methods : table := [
       IAcc F_T_parent false;
       ICall "t.parent.fail";
       IAcc F_T_failed false]]);
-  (* engine.go:810 *)
+  (* engine.go:851 *)
   ("T.failOnError", [
     ILocked MU_T_mu MR [
       IAcc F_T_failed false;
       IAcc F_T_failed false]]);
-  (* engine.go:799 *)
+  (* engine.go:829 *)
   ("T.failedError", [
     ILocked MU_T_mu MR [
       IAcc F_T_failed false;
       IAcc F_T_failed false]]);
-  (* engine.go:637 *)
+  (* engine.go:642 *)
   ("T.cleanup", [
     IAtomic F_T_cleaning true;
     ILocked MU_T_mu MW [
@@ -299,11 +299,13 @@ Definition t_methods : table := [
       IAcc F_T_cleanups false;
       IAcc F_T_cleanups true];
     ICall "cleanup";
+    ICall "root.mu.Lock";
+    ICall "root.mu.Unlock";
     ILocked MU_T_mu MW [
       IAcc F_T_cleanups false];
     ICall "T.cleanup (recursive)";
     IAtomic F_T_cleaning true]);
-  (* engine.go:554 *)
+  (* engine.go:559 *)
   ("T.shouldLog", [
     IAcc F_T_rawLog false;
     IAcc F_T_tbLog false])
